@@ -14,6 +14,7 @@ import (
 	"os"
 	"os/exec"
 	"path/filepath"
+	"regexp"
 	"sort"
 	"strconv"
 	"strings"
@@ -160,6 +161,9 @@ func main() {
 				continue
 			}
 			fmt.Printf("FAILED %s [%s] %s\n   detail: %s\n   witness: %s\n", o.Name, o.Status, o.Solver, o.Detail, o.Witness)
+			if os.Getenv("BOUNDED_DEV_MODEL") != "" {
+				fmt.Printf("   model: %v\n   solver output: %s\n", o.Model, o.Output)
+			}
 			if o.Replay != nil {
 				fmt.Printf("   replay confirmed=%v: %s\n", o.Replay.Confirmed, o.Replay.Output)
 			} else if o.Output != "" {
@@ -416,8 +420,28 @@ func runCheck(args []string) int {
 	}
 	fmt.Printf("property %s tier %s: %d obligations generated, %d claimed, %d of the claimed discharged, %d unclaimed; engine %.1fs, total %.1fs\n",
 		prop, env.Tier, len(res.Obls), len(v.Claimed), nd, len(v.Unclaimed), tEngine.Seconds(), time.Since(t0).Seconds())
-	b, _ := json.Marshal(res.Extra["bounded"])
-	fmt.Println(string(b))
+	if os.Getenv("BOUNDED_DEV_EXTRA") != "" {
+		b, _ := json.Marshal(res.Extra["bounded"])
+		fmt.Println(string(b))
+	}
+	// obligations per claim (to set the `min` vacuity guards)
+	for _, c := range cf.Claims {
+		parts := strings.Split(c.Match, "*")
+		for i, p := range parts {
+			parts[i] = regexp.QuoteMeta(p)
+		}
+		re := regexp.MustCompile("^" + strings.Join(parts, ".*") + "$")
+		n, nd := 0, 0
+		for _, o := range res.Obls {
+			if re.MatchString(o.Name) {
+				n++
+				if o.Status == core.Discharged {
+					nd++
+				}
+			}
+		}
+		fmt.Printf("CLAIM %-28s min %-7d matched %-7d discharged %d\n", c.Match, c.Min, n, nd)
+	}
 	max := 12
 	for i, l := range v.Lines {
 		if i < max {
